@@ -281,11 +281,13 @@ def c03(tier, seed):
     if tier == "quick":
         return [sized("C03", tier, "sized_uniq_q", ops, 3, 2, 1),
                 mm("C03", tier, "mm_uniq_q", [("c03_2x3", mops, 2, 3, 2, False), ("c03_3x2", mops, 3, 2, 1, False)]),
-                tr("C03", tier, "threads_q", seed), inj("C03", tier), thin("C03", tier, "thin_uniq_" + tier[0], THIN_OPS, 3 if tier == "quick" else 4, 2, 1, 1)] + swaps("C03", tier, seed, hows=("init", "thin"))
+                tr("C03", tier, "threads_q", seed), inj("C03", tier), thin("C03", tier, "thin_uniq_" + tier[0], THIN_OPS, 3 if tier == "quick" else 4, 2, 1, 1),
+            stage(CT.ctor_stage, "C03", tier, "zst_" + tier[0], ["zst"], True, only_cats=["verdict", "panicked", "crash"])] + swaps("C03", tier, seed, hows=("init", "thin"))
     return [sized("C03", tier, "sized_uniq_t", ops + ["Unsize", "IntoRawDyn", "FromRawDyn"], 4, 2, 1),
             mm("C03", tier, "mm_uniq_t", [("c03_2x4", mops, 2, 4, 2, False), ("c03_3x3", mops, 3, 3, 1, False),
                                           ("c03_3x2h", mops, 3, 2, 1, True)]),
-            tr("C03", tier, "threads_t", seed), inj("C03", tier), thin("C03", tier, "thin_uniq_" + tier[0], THIN_OPS, 3 if tier == "quick" else 4, 2, 1, 1)] + swaps("C03", tier, seed, hows=("init", "thin"))
+            tr("C03", tier, "threads_t", seed), inj("C03", tier), thin("C03", tier, "thin_uniq_" + tier[0], THIN_OPS, 3 if tier == "quick" else 4, 2, 1, 1),
+            stage(CT.ctor_stage, "C03", tier, "zst_" + tier[0], ["zst"], True, only_cats=["verdict", "panicked", "crash"])] + swaps("C03", tier, seed, hows=("init", "thin"))
 
 
 def c04(tier, seed):
@@ -295,12 +297,14 @@ def c04(tier, seed):
                 thin("C04", tier, "thin_count_q", THIN_OPS, 3, 2, 1, 1), slices("C04", tier, "slices_count_q", 3, 2, 2),
                 tr("C04", tier, "threads_q", seed), inj("C04", tier), stage(AP.ind_stage, "C04", tier, "apalache_inductive_q"),
                 # comparing, hashing or formatting never changes a count, not even while it is in progress
-                stage(CT.ctor_stage, "C04", tier, "observers_q", ["observe"], True, only_cats=["count", "crash"])] + swaps("C04", tier, seed) + long_walks("C04", tier, seed)
+                stage(CT.ctor_stage, "C04", tier, "observers_q", ["observe"], True, only_cats=["count", "crash"]),
+                stage(CT.ctor_stage, "C04", tier, "ctor_counts_q", ["fhi", "thin", "collect", "vec", "slice", "str"], False, only_cats=["count", "crash"])] + swaps("C04", tier, seed) + long_walks("C04", tier, seed)
     return [sized("C04", tier, "sized_count_t", ops, 4, 2, 2), walks("C04", tier, seed),
             thin("C04", tier, "thin_count_t", THIN_OPS, 4, 2, 2, 2), slices("C04", tier, "slices_count_t", 4, 2, 2),
             tr("C04", tier, "threads_t", seed), inj("C04", tier), stage(AP.ind_stage, "C04", tier, "apalache_inductive_t"),
                 # comparing, hashing or formatting never changes a count, not even while it is in progress
-                stage(CT.ctor_stage, "C04", tier, "observers_t", ["observe"], True, only_cats=["count", "crash"])] + swaps("C04", tier, seed) + long_walks("C04", tier, seed)
+                stage(CT.ctor_stage, "C04", tier, "observers_t", ["observe"], True, only_cats=["count", "crash"]),
+                stage(CT.ctor_stage, "C04", tier, "ctor_counts_t", ["fhi", "thin", "collect", "vec", "slice", "str"], False, only_cats=["count", "crash"])] + swaps("C04", tier, seed) + long_walks("C04", tier, seed)
 
 
 # what can be compared when payloads have no destructor to report from
@@ -315,13 +319,15 @@ def c08(tier, seed):
                 # the same graph with payloads that have no drop glue (4 KB and 12 bytes): their Clone is still a call
                 sized("C08", tier, "sized_cow_plain_q", BASE + COW + ["GetMut", "IntoOff", "FromOff"], 3, 3, 1, hows=("new", "newB"), harness_cfg="p", cats=PLAIN_CATS),
                 mm("C08", tier, "mm_cow_q", [("c08_2x3", mops, 2, 3, 2, False), ("c08_3x2", mops, 3, 2, 1, False)]),
-                tr("C08", tier, "threads_q", seed), inj("C08", tier), lay("C08", tier, "layout_matrix_q")] + swaps("C08", tier, seed, hows=("init",))
+                tr("C08", tier, "threads_q", seed), inj("C08", tier), lay("C08", tier, "layout_matrix_q"),
+            stage(CT.ctor_stage, "C08", tier, "zst_q", ["zst"], True, only_cats=["verdict", "ncl", "drops", "leak", "panicked", "crash"])] + swaps("C08", tier, seed, hows=("init",))
     return [sized("C08", tier, "sized_cow_t", ops, 4, 3, 1, hows=("new", "newB")),
             sized("C08", tier, "sized_cow_plain_t", ops, 3, 3, 1, hows=("new", "newB"), harness_cfg="p", cats=PLAIN_CATS),
             mm("C08", tier, "mm_cow_t", [("c08_2x4", mops, 2, 4, 2, False), ("c08_3x2", mops, 3, 2, 2, False),
                                          # three threads x three calls without the plain read (270 M states with it: an hour)
                                          ("c08_3x3", ["clone", "drop", "make_mut"], 3, 3, 1, False)]),
-            tr("C08", tier, "threads_t", seed), inj("C08", tier), lay("C08", tier, "layout_matrix_t")] + swaps("C08", tier, seed, hows=("init",))
+            tr("C08", tier, "threads_t", seed), inj("C08", tier), lay("C08", tier, "layout_matrix_t"),
+            stage(CT.ctor_stage, "C08", tier, "zst_t", ["zst"], True, only_cats=["verdict", "ncl", "drops", "leak", "panicked", "crash"])] + swaps("C08", tier, seed, hows=("init",))
 
 
 def c09(tier, seed):
